@@ -38,6 +38,11 @@ def docs():
         [T.A, T.EQ, T.LP, T.LP, T.ONE, T.RP, T.COMMA, T.LB, T.QS, T.RB, T.RP, T.COMMENT, T.B, T.EQ, T.B],
         [T.OBJECT, T.EQ, T.A, T.B, T.EQ, T.ONE, T.UNITS, T.SEMI, T.OBJECT, T.EQ, T.B] + a1 +
         [T.END_OBJECT, T.EQ, T.B, T.END_OBJECT, T.EQ, T.A, T.SEMI, T.END, T.SEMI],
+        # documents that already use the default loader's missing-value tolerance (ill-formed for
+        # the strict parsers): damage is explored from these non-initial parser states too
+        [T.B, T.EQ, T.ONE, T.GROUP, T.EQ, T.A, T.A, T.EQ, T.B, T.EQ, T.ONE, T.END_GROUP, T.B, T.EQ, T.QS],
+        [T.A, T.EQ, T.B, T.EQ, T.LP, T.ONE, T.COMMA, T.ONE, T.RP, T.OBJECT, T.EQ, T.B, T.A, T.EQ, T.SEMI,
+         T.B, T.EQ, T.END_OBJECT, T.EQ, T.B, T.A, T.EQ, T.END],
     ]
 
 
@@ -45,9 +50,11 @@ def expectations(seq):
     return {m: R.verdict(seq, m) for m in ("pvl", "odl", "omni")}
 
 
-def judge(acc, seq, payload):
-    text = T.render(seq)
+def judge(acc, seq, payload, compact=False):
+    text = T.render_compact(seq) if compact else T.render(seq)
     ver = expectations(seq)
+    if compact:
+        payload = dict(payload, compact=True)
     acc.traces += 1
     for d in impl.DIALECTS:
         mode = T.MODE[d]
@@ -119,11 +126,12 @@ def shard_damage(spec):
     di, depth, lo, hi = spec
     base = docs()[di]
     acc = Acc()
-    first = T.damage(base, T.ALPHABET18)
+    first = T.damage(base, T.ALPHABET20)
     for j, (kind, i, seq) in enumerate(first):
         if not (lo <= j < hi):
             continue
         judge(acc, seq, {"kind": "damage", "doc": di, "damage": [[kind, i]]})
+        judge(acc, seq, {"kind": "damage", "doc": di, "damage": [[kind, i]]}, compact=True)
         if depth >= 2:
             for kind2, i2, seq2 in T.damage(seq, T.ALPHABET11):
                 if kind2 == "rep" and abs(i2 - i) > 3:
@@ -137,14 +145,14 @@ def run(ctx):
     acc = Acc()
     q = ctx.quick
     k = 4 if q else 5
-    A18 = T.ALPHABET18
+    A18 = T.ALPHABET20
     specs = []
     for n in range(1, k + 1):
         if n <= 2:
             specs.append((A18, n, []))
         else:
             specs += [(A18, n, [a, b]) for a in A18 for b in A18]
-    # longer sequences over the 11-token core
+    # longer sequences over the 12-token core
     k11 = 5 if q else 7
     specs += [(T.ALPHABET11, k11, [a, b]) for a in T.ALPHABET11 for b in T.ALPHABET11]
     ctx.pmap(shard_seq, specs, into=acc)
@@ -161,7 +169,7 @@ def run(ctx):
         "evaluations": acc.n, "distinct_nontrivial": acc.nontrivial,
         "states": len({(a, b) for a, b, _ in edges}), "transitions": len(edges),
         "traces_validated_against_impl": acc.traces,
-        "rule": "all token sequences of length <= %d over the 18-token alphabet and of length %d over an 11-token "
+        "rule": "all token sequences of length <= %d over the 20-token alphabet (18 well-formed tokens + an unterminated quoted string + an unterminated units expression) and of length %d over a 12-token "
                 "core, plus %d reference documents x all single%s token damages (delete, duplicate, swap, "
                 "replace by any alphabet token, truncate); each rendered with single spaces and run on 5 loaders; "
                 "states = distinct reference verdicts (class, diagnosis), transitions = (verdict, loader) pairs "
@@ -182,7 +190,7 @@ def run(ctx):
 
 
 def _seq_from(case):
-    by_text = {t[1]: t for t in T.ALPHABET18}
+    by_text = {t[1]: t for t in T.ALPHABET20}
     return [by_text[x] for x in case["tokens"]]
 
 
@@ -190,11 +198,15 @@ def replay(case):
     acc = Acc()
     seq = _seq_from(case)
     keep = loaders.impl.DIALECTS
-    judge(acc, seq, {k: v for k, v in case.items() if k not in ("tokens", "dialect")})
+    judge(acc, seq, {k: v for k, v in case.items() if k not in ("tokens", "dialect", "compact")},
+          compact=bool(case.get("compact")))
     return [v for v in acc.violations if v["case"]["dialect"] == case["dialect"]]
 
 
 def candidates(case):
     toks = case["tokens"]
     for i in range(len(toks)):
-        yield {"tokens": toks[:i] + toks[i + 1:], "dialect": case["dialect"], "kind": "sequence"}
+        c = {"tokens": toks[:i] + toks[i + 1:], "dialect": case["dialect"], "kind": "sequence"}
+        if case.get("compact"):
+            c["compact"] = True
+        yield c
